@@ -4,7 +4,7 @@
    above it (run_match_no_fuel).  The inner loops carry their own bounds (the subject or pattern length + 1):
    each is shown to return the same result under ANY larger bound (the _stable lemmas), i.e. the bound is
    never the reason a loop ends. *)
-From C13 Require Import Model ModelDrv ModelPat.
+From C13 Require Import Model ModelDrv ModelPat ProofsDrv ProofsPat.
 Local Open Scope Z_scope.
 
 Section Fuel.
@@ -139,6 +139,91 @@ Section Fuel.
     destruct ((cl <=? slen_ - s) && bytes_eqb (slice src ci cl) (slice src s cl)); [apply Ha; lia|discriminate].
   Qed.
 
+  (* ---- the same walk for MUnsafe: with the %f flag off no branch produces it ---- *)
+  Lemma max_down_nounsafe call caps s0 ep : (forall i, 0 <= i -> call caps (s0 + i) (ep + 1) <> MUnsafe) ->
+    forall k i, 0 <= i -> max_down call caps s0 ep k i <> MUnsafe.
+  Proof.
+    intros Hc. induction k as [|k IH]; intros i Hi; cbn [max_down]; specialize (Hc i Hi);
+      destruct (call caps (s0 + i) (ep + 1)); try discriminate; try congruence.
+    destruct (Z.ltb_spec (i - 1) 0); [discriminate|]. apply IH. lia.
+  Qed.
+
+  Lemma min_up_nounsafe sm call caps ep :
+    (forall s1, 0 <= s1 -> call caps s1 (ep + 1) <> MUnsafe) ->
+    forall k s1, 0 <= s1 -> min_up sm call caps ep k s1 <> MUnsafe.
+  Proof.
+    intros Hc. induction k as [|k IH]; intros s1 H0; cbn [min_up]; specialize (Hc s1 H0);
+      destruct (call caps s1 (ep + 1)); try discriminate; try congruence.
+    - destruct (sm s1); discriminate.
+    - destruct (sm s1); [|discriminate]. apply IH; lia.
+  Qed.
+
+  (* ---- one level of match(): no MUnsafe if the continuations, which are only entered further right in the
+     pattern and at non-negative subject positions, give none ---- *)
+  Lemma body_nounsafe call again caps s p : cfg_front_prev_unsafe_on_empty cfg = false -> 0 <= s ->
+    (p < plen -> forall caps' s' p', 0 <= s' -> p < p' -> call caps' s' p' <> MUnsafe) ->
+    (p < plen -> forall s' p', 0 <= s' -> p < p' -> again s' p' <> MUnsafe) ->
+    match_body cfg src pat call again caps s p <> MUnsafe.
+  Proof.
+    intros Hflag Hs Hc0 Ha0. unfold match_body. rewrite Hflag.
+    destruct (Z.ltb_spec p plen) as [Hlt|]; cbn [negb]; [|discriminate].
+    pose proof (Hc0 Hlt) as Hc. pose proof (Ha0 Hlt) as Ha.
+    assert (Hdflt :
+      match class_end pat p with
+      | Some ep =>
+          if negb (single_match cfg src pat s p ep)
+          then if (P pat ep =? 42) || (P pat ep =? 63) || (P pat ep =? 45) then again s (ep + 1) else MFail
+          else if P pat ep =? 63
+               then match call caps (s + 1) (ep + 1) with MFail => again s (ep + 1) | r0 => r0 end
+               else if (P pat ep =? 43) || (P pat ep =? 42)
+                    then max_down call caps (if P pat ep =? 43 then s + 1 else s) ep (S (length src))
+                           (count_max cfg src pat (S (length src)) (if P pat ep =? 43 then s + 1 else s) p ep 0)
+                    else if P pat ep =? 45
+                         then min_up (fun s1 => single_match cfg src pat s1 p ep) call caps ep (S (length src)) s
+                         else again (s + 1) ep
+      | None => MError
+      end <> MUnsafe).
+    { destruct (class_end pat p) as [ep|] eqn:Ece; [|discriminate]. apply class_end_gt in Ece.
+      destruct (negb (single_match cfg src pat s p ep)).
+      { destruct ((P pat ep =? 42) || (P pat ep =? 63) || (P pat ep =? 45)); [apply Ha; lia|discriminate]. }
+      destruct (P pat ep =? 63).
+      { pose proof (Hc caps (s + 1) (ep + 1) ltac:(lia) ltac:(lia)) as H1.
+        destruct (call caps (s + 1) (ep + 1)); try discriminate; try congruence. apply Ha; lia. }
+      destruct ((P pat ep =? 43) || (P pat ep =? 42)).
+      { apply max_down_nounsafe.
+        - intros i Hi. apply Hc; [destruct (P pat ep =? 43); lia|lia].
+        - apply count_max_ge. }
+      destruct (P pat ep =? 45); [|apply Ha; lia].
+      apply min_up_nounsafe.
+      - intros s1 H1. apply Hc; lia.
+      - exact Hs. }
+    destruct (P pat p =? 40).
+    { destruct (Z.of_nat (length caps) <? cfg_maxcap cfg); [|discriminate].
+      destruct (P pat (p + 1) =? 41); apply Hc; lia. }
+    destruct (P pat p =? 41).
+    { destruct (to_close caps (length caps)) as [l|]; [|discriminate].
+      destruct (nth_error caps l) as [[ci cl]|]; [apply Hc; lia|discriminate]. }
+    destruct ((P pat p =? 36) && (p + 1 =? plen)).
+    { destruct (s =? slen_); discriminate. }
+    destruct (P pat p =? 37); [|exact Hdflt].
+    destruct (P pat (p + 1) =? 98).
+    { destruct (negb (p + 2 <? plen - 1)); [discriminate|].
+      destruct ((slen_ <=? s) || negb (S_ src s =? P pat (p + 2))); [discriminate|].
+      destruct (balance_loop src (S (length src)) (s + 1) (P pat (p + 2)) (P pat (p + 3)) 1) as [s'|] eqn:Eb; [|discriminate].
+      apply balance_ge in Eb. apply Ha; lia. }
+    destruct (P pat (p + 1) =? 102).
+    { destruct (negb (P pat (p + 2) =? 91)); [discriminate|].
+      destruct (class_end pat (p + 2)) as [ep|] eqn:Ece; [|discriminate]. apply class_end_gt in Ece.
+      cbn [andb].
+      destruct (negb _ && _); [apply Ha; lia|discriminate]. }
+    destruct ((48 <=? P pat (p + 1)) && (P pat (p + 1) <=? 57)); [|exact Hdflt].
+    destruct ((P pat (p + 1) - 49 <? 0) || (Z.of_nat (length caps) <=? P pat (p + 1) - 49)); [discriminate|].
+    destruct (nth_error caps (Z.to_nat (P pat (p + 1) - 49))) as [[ci cl]|]; [|discriminate].
+    destruct (cl =? CAP_UNFINISHED); [discriminate|].
+    destruct (Z.leb_spec 0 cl); cbn [andb]; [|discriminate].
+    destruct ((cl <=? slen_ - s) && bytes_eqb (slice src ci cl) (slice src s cl)); [apply Ha; lia|discriminate].
+  Qed.
+
   (* ---- the inner loops: their bounds are never what ends them ---- *)
   Lemma set_end_stable : forall f1 f2 p, p <= plen -> plen - p < Z.of_nat f1 -> plen - p < Z.of_nat f2 ->
     set_end pat f1 p = set_end pat f2 p.
@@ -226,6 +311,14 @@ Section Fuel.
     - intros Hlt caps' s' p' Hs' Hp. unfold enter. destruct (cfg_enter cfg depth); [|discriminate]. apply IH; lia.
     - intros Hlt s' p' Hs' Hp. apply IH; lia.
   Qed.
+  Theorem no_unsafe : cfg_front_prev_unsafe_on_empty cfg = false -> forall fuel depth caps s p, 0 <= s ->
+    do_match cfg src pat fuel depth caps s p <> MUnsafe.
+  Proof.
+    intros Hflag. induction fuel as [|f IH]; intros depth caps s p Hs; [discriminate|].
+    cbn [do_match]. apply body_nounsafe; [exact Hflag|exact Hs| |].
+    - intros Hlt caps' s' p' Hs' Hp. unfold enter. destruct (cfg_enter cfg depth); [|discriminate]. apply IH; lia.
+    - intros Hlt s' p' Hs' Hp. apply IH; lia.
+  Qed.
 End Fuel.
 
 Theorem run_match_no_fuel cfg src pat p0 s : 0 <= s -> 0 <= p0 -> run_match cfg src pat p0 s <> MFuel.
@@ -233,6 +326,12 @@ Proof.
   intros Hs Hp. unfold run_match. destruct (cfg_enter cfg (cfg_depth0 cfg)); [|discriminate].
   apply no_fuel; [exact Hs| |unfold match_fuel; lia].
   unfold match_fuel, plen, slen. nia.
+Qed.
+
+Theorem run_match_no_unsafe cfg src pat p0 s : cfg_front_prev_unsafe_on_empty cfg = false -> 0 <= s ->
+  run_match cfg src pat p0 s <> MUnsafe.
+Proof.
+  intros Hflag Hs. unfold run_match. destruct (cfg_enter cfg (cfg_depth0 cfg)); [|discriminate]. apply no_unsafe; assumption.
 Qed.
 
 (* ------------------------------------------------------------------ positions stay inside the arguments *)
@@ -548,4 +647,37 @@ Proof.
     destruct (is_prefix pat (skipn (Z.to_nat pos) s)) eqn:E; try discriminate.
   - intros _ j Hj. replace j with pos by lia. exact E.
   - intros H j Hj. destruct (Z.eq_dec j pos) as [->|]; [exact E|]. apply (IH (pos + 1) H). lia.
+Qed.
+
+(* ------------------------------------------------------------------ string.gsub on a real pattern *)
+(* [pat_matcher] (ProofsPat.v) hands the drivers of ModelDrv.v "no match here" for everything that is not a match.
+   The statement therefore requires that the port's matcher neither errs (malformed pattern) nor runs out of its
+   budget at any position of the subject; fuel and MUnsafe are excluded by the theorems above; under these
+   hypotheses "no match here" is a genuine failure to match, on both sides *)
+Definition normal (r : mres) : Prop := match r with MFound _ _ | MFail => True | _ => False end.
+
+Theorem gsub_pattern_eq_lua_strict src pat repl anchor maxn p0 : is_bytes src = true -> 0 <= p0 ->
+  (forall pos, 0 <= pos <= slen src ->
+     run_match nl_cfg src pat p0 pos <> MTooComplex /\ run_match nl_cfg src pat p0 pos <> MError) ->
+  (forall pos, 0 <= pos <= slen src ->
+     normal (run_match nl_cfg src pat p0 pos) /\ run_match lua_cfg src pat p0 pos = run_match nl_cfg src pat p0 pos) /\
+  nl_gsub (pat_matcher nl_cfg src pat p0) src repl anchor maxn =
+  lua_gsub (pat_matcher lua_cfg src pat p0) src repl anchor maxn /\
+  lua_gsub (pat_matcher lua_cfg src pat p0) src repl anchor maxn <> None.
+Proof.
+  intros Hsrc Hp0 Hgood. split.
+  - intros pos Hpos. destruct (Hgood pos Hpos) as [Htc Herr].
+    pose proof (run_match_no_fuel nl_cfg src pat p0 pos ltac:(lia) Hp0) as Hf.
+    pose proof (run_match_no_unsafe nl_cfg src pat p0 pos eq_refl ltac:(lia)) as Hu.
+    split.
+    + destruct (run_match nl_cfg src pat p0 pos); cbn; congruence || exact I.
+    + destruct (match_eq_lua src pat p0 pos Hsrc) as [E|E]; [contradiction|symmetry; exact E].
+  - apply gsub_pattern_eq_lua; [exact Hsrc|]. intros pos Hpos. apply (Hgood pos Hpos).
+Qed.
+
+(* a malformed pattern is reported by both matchers at the same place *)
+Lemma match_error_eq_lua src pat p0 s : is_bytes src = true ->
+  run_match nl_cfg src pat p0 s = MError -> run_match lua_cfg src pat p0 s = MError.
+Proof.
+  intros Hsrc E. destruct (match_eq_lua src pat p0 s Hsrc) as [H|H]; [congruence|]. rewrite <- H. exact E.
 Qed.
